@@ -247,8 +247,7 @@ Fixpoint map_opt {A B} (f : A -> option B) (l : list A) : option (list B) :=
 
 (* the infer() methods of ArrayLiteral, MapLiteral, BinaryExpression,
    GroupExpression; identity on nodes that are not inferrers (callers test
-   [val.(inferrer)]).  None = Go panic (nil dereference in Type.infer, or the
-   unchecked assertion d.Expr.(inferrer) in GroupExpression.infer). *)
+   [val.(inferrer)]).  None = Go panic (nil dereference in Type.infer). *)
 Fixpoint infer_node (n : node) : option node :=
   match n with
   | NArrLit t els =>
@@ -282,10 +281,8 @@ Fixpoint infer_node (n : node) : option node :=
       | None => None
       end
   | NBin t op l r => Some (if is_empty_arr t then NBin (TArr true TAny) op l r else n)
-  | NGroup e =>
-      if is_empty_arr (node_type e) then
-        (if is_inferrer e then match infer_node e with Some e' => Some (NGroup e') | None => None end
-         else None)
+  | NGroup e =>                               (* if inf, ok := d.Expr.(inferrer); ok { inf.infer() } *)
+      if is_inferrer e then match infer_node e with Some e' => Some (NGroup e') | None => None end
       else Some n
   | _ => Some n
   end.
@@ -314,6 +311,7 @@ Fixpoint wrap_any (val : node) (target : ty) {struct val} : option node :=
         | None => None
         end
     | NGroup e => match wrap_any e target with Some e' => Some (NGroup e') | None => None end
+    | NSlice _ l => match wrap_any l target with Some l' => Some (NSlice target l') | None => None end   (* [][:] is as untyped as [] *)
     | _ => None
     end
   else if is_empty_map vt then
@@ -441,7 +439,7 @@ Definition range_var_type (t : ty) : option (option ty) :=
   (* outer None: parse error; inner None: nil dereference in infer *)
   match name t with
   | STRING | MAP => Some (Some TString)
-  | ARRAY => Some (match infer t with Some t' => sub t' | None => None end)
+  | ARRAY => Some (match infer t with Some t' => option_map fixed_type (sub t') | None => None end)
   | NUM => Some (Some TNum)
   | _ => None
   end.
@@ -495,7 +493,7 @@ Fixpoint tc (e : expr) : outcome :=
   | ELitStr => ONode (NLeaf TString) false
   | ELitBool => ONode (NLeaf TBool) false
   | EVar t => ONode (NLeaf (fixed_type (embed t))) false      (* parseTypedDecl: decl.Var.T = fixedType(v); lookupVar *)
-  | ECall t => ONode (NLeaf (embed t)) false                  (* FuncCall.Type() = FuncDef.ReturnType = parseType() *)
+  | ECall t => ONode (NLeaf (fixed_type (embed t))) false     (* FuncCall.Type() = fixedType(FuncDef.ReturnType) *)
   | EArr els =>                                               (* parseArrayLiteral *)
       match seq_outcomes (map tc els) with
       | None => OCrash
@@ -533,7 +531,8 @@ Fixpoint tc (e : expr) : outcome :=
       bind_node (tc r) (fun rn re =>
         let lt := node_type ln in
         let rt := node_type rn in
-        ONode (NBin (binary_node_type op lt rt) op ln rn) (le || re || negb (validate_binary op lt rt))))
+        if validate_binary op lt rt then ONode (NBin (binary_node_type op lt rt) op ln rn) (le || re)
+        else ONil))                                           (* "return nil // type error reported" *)
   | EUn op r =>                                               (* parseUnaryExpr *)
       bind_node (tc r) (fun rn re =>
         if validate_unary op (node_type rn) then ONode (NLeaf (node_type rn)) re
@@ -546,7 +545,10 @@ Fixpoint tc (e : expr) : outcome :=
         if negb (is_array_name lt || is_map_name lt || is_string lt) then ONil
         else bind_node (tc i) (fun inode ie =>
           match index_type lt (node_type inode) with
-          | Some t => ONode (NLeaf t) (le || ie)
+          | Some t => match infer t with                      (* T: fixedType(t.infer()) *)
+                      | Some t' => ONode (NLeaf (fixed_type t')) (le || ie)
+                      | None => OCrash
+                      end
           | None => if is_generic lt then OCrash else ONil
           end))
   | ESlice l s e' =>                                          (* parseIndexOrSliceExpr + parseSlice *)
@@ -579,12 +581,15 @@ Fixpoint tc (e : expr) : outcome :=
   | EDot l =>                                                 (* parseDotExpr *)
       bind_node (tc l) (fun ln le =>
         match dot_type (node_type ln) with
-        | Some t => ONode (NLeaf t) le
+        | Some t => match infer t with                        (* T: fixedType(left.Type().Sub.infer()) *)
+                    | Some t' => ONode (NLeaf (fixed_type t')) le
+                    | None => OCrash
+                    end
         | None => if is_generic (node_type ln) then OCrash else ONil
         end)
   | EAssert a t =>                                            (* parseTypeAssertion *)
       bind_node (tc a) (fun an ae =>
-        ONode (NLeaf (embed t)) (ae || negb (validate_assert (node_type an) (embed t))))
+        ONode (NLeaf (fixed_type (embed t))) (ae || negb (validate_assert (node_type an) (embed t))))
   end.
 
 (* ---------- statement contexts (parser.go) ---------- *)
